@@ -199,8 +199,16 @@ impl TypeAggregator {
                     .is_ok()
                 {
                     // Keep track that the source type should be replaced with the
-                    // target type wherever it's used.
-                    self.remapped.insert(source_kind.ty(), target_kind.ty());
+                    // target type wherever it's used; a defined type can only be
+                    // replaced by another defined type (an alias of a primitive is a
+                    // subtype of the primitive, but `remap_defined_type` needs an id).
+                    let replaceable = !matches!(
+                        (source_kind.ty(), target_kind.ty()),
+                        (Type::Value(ValueType::Defined(_)), Type::Value(t)) if !matches!(t, ValueType::Defined(_))
+                    );
+                    if replaceable {
+                        self.remapped.insert(source_kind.ty(), target_kind.ty());
+                    }
                     continue;
                 }
 
